@@ -342,6 +342,20 @@ private:
   }
 
   /**
+   * @brief Whether a callback registered in the given incarnation of this
+   * sandbox is still in force: the sandbox is created and has not been
+   * destroyed (and created again) since.
+   */
+  inline bool is_callback_incarnation_current(size_t incarnation) noexcept
+  {
+    if (sandbox_created.load() != Sandbox_Status::CREATED) {
+      return false;
+    }
+    std::lock_guard<std::mutex> lock(callback_lock);
+    return incarnation == sandbox_incarnation;
+  }
+
+  /**
    * @brief Unregister a callback function and disallow the sandbox from
    * calling this function henceforth.
    */
